@@ -12,7 +12,8 @@
 //	parse            a name parses to the same value, and a word that is no name is rejected, whatever was parsed before (C14)
 //	dump             compared as well, reported as a note (no statement speaks about Dump)
 //
-// A history runs in a process that is either ordinary or "bare" (root changed to an empty directory before the first call).
+// A history runs in a process that is ordinary, "bare" (root changed to an empty directory before the first call) or
+// "noseccomp" (every thread under an enclosing filter that answers seccomp(2) with ENOSYS).
 package main
 
 import (
@@ -44,6 +45,7 @@ type pol struct {
 type call struct {
 	Op   string `json:"op"`
 	Pol  *pol   `json:"pol,omitempty"`
+	Pol2 *pol   `json:"pol2,omitempty"`
 	Arch string `json:"arch,omitempty"`
 	NNP  bool   `json:"nnp,omitempty"`
 	Name string `json:"name,omitempty"`
@@ -56,11 +58,13 @@ type outcome struct {
 	Progs []string `json:"progs,omitempty"` // load: digests of the programs hook H2 saw
 	Flags []uint32 `json:"flags,omitempty"` // load: the flag words hook H2 saw
 	NNP   int      `json:"nnp"`             // load: the thread's no_new_privs bit afterwards
+	NNP0  int      `json:"nnp_before"`      // load: ... and before the call
 	Back  string   `json:"back,omitempty"`  // table: what the number found maps back to
 }
 
 type job struct {
-	Bare  string `json:"bare"` // directory to change the root to, "" for an ordinary process
+	Bare  string `json:"bare"`  // directory to change the root to, "" for an ordinary process
+	Block bool   `json:"block"` // every thread under an enclosing filter that answers seccomp(2) with ENOSYS
 	Calls []call `json:"calls"`
 }
 
@@ -184,10 +188,25 @@ func child() {
 		}
 		os.Chdir("/")
 	}
+	if j.Block {
+		if err := probe.BlockSeccompAllThreads(); err != nil {
+			fmt.Fprintln(os.Stderr, "block:", err)
+			os.Exit(3)
+		}
+	}
 	var outs []outcome
 	for _, c := range j.Calls {
 		var o outcome
 		switch c.Op {
+		case "recompile":
+			// ONE value: compiled while it holds Pol, its exported fields rewritten to Pol2 (as unpacking a configuration into it
+			// again does), compiled again
+			p := policy(c.Pol, false)
+			seccomp.VerifSetArch(&p, info(c.Arch))
+			compileDigest(&p)
+			q := policy(c.Pol2, false)
+			p.DefaultAction, p.Syscalls = q.DefaultAction, q.Syscalls
+			o.Out = compileDigest(&p)
 		case "compile":
 			p := policy(c.Pol, false)
 			seccomp.VerifSetArch(&p, info(c.Arch))
@@ -220,6 +239,8 @@ func child() {
 					o.Progs = append(o.Progs, fmt.Sprintf("%d instructions %s", len(prog), digest(b.Bytes())))
 					o.Flags = append(o.Flags, uint32(flags))
 				}
+				r0, _, _ := syscall.RawSyscall6(syscall.SYS_PRCTL, 39 /* PR_GET_NO_NEW_PRIVS */, 0, 0, 0, 0, 0)
+				o.NNP0 = int(r0)
 				err := seccomp.LoadFilter(seccomp.Filter{NoNewPrivs: cc.NNP, Policy: policy(cc.Pol, true)})
 				seccomp.VerifBeforeInstall = nil
 				if err != nil {
@@ -317,6 +338,7 @@ func main() {
 	isChild := flag.Bool("child", false, "")
 	in := flag.String("in", "", "JSON file: list of histories (lists of calls)")
 	bare := flag.String("bare", "", "empty directory: every third history runs in a process whose root it is")
+	block := flag.Bool("blockseccomp", false, "every third history runs in a process whose seccomp(2) calls are answered with ENOSYS")
 	out := flag.String("out", "", "findings (ndjson)")
 	workers := flag.Int("workers", 12, "")
 	flag.Parse()
@@ -342,7 +364,12 @@ func main() {
 			if _, ok := fresh[k]; ok {
 				continue
 			}
-			o, err := run(self, job{Calls: []call{c}})
+			fc := c
+			if c.Op == "recompile" {
+				// Hist!Fresh: what a fresh value holding the new content compiles to
+				fc = call{Op: "compile", Pol: c.Pol2, Arch: c.Arch}
+			}
+			o, err := run(self, job{Calls: []call{fc}})
 			if err != nil {
 				fmt.Fprintln(os.Stderr, "fresh call failed:", k, err)
 				os.Exit(2)
@@ -360,6 +387,7 @@ func main() {
 	sum := struct {
 		Histories int            `json:"histories"`
 		Bare      int            `json:"histories_in_a_process_without_a_file_system"`
+		Blocked   int            `json:"histories_in_a_process_whose_seccomp_call_is_answered_ENOSYS"`
 		Calls     int            `json:"calls"`
 		Distinct  int            `json:"distinct_calls"`
 		Failed    int            `json:"children_failed"`
@@ -386,12 +414,18 @@ func main() {
 			if *bare != "" && hi%3 == 2 {
 				j.Bare = *bare
 			}
+			if *block && hi%3 == 1 {
+				j.Block = true
+			}
 			outs, err := run(self, j)
 			mu.Lock()
 			sum.Histories++
 			sum.Calls += len(h)
 			if j.Bare != "" {
 				sum.Bare++
+			}
+			if j.Block {
+				sum.Blocked++
 			}
 			if err != nil {
 				sum.Failed++
@@ -409,9 +443,13 @@ func main() {
 					return finding{Kind: kind, Why: why, Bare: j.Bare != "", History: h, Index: i, Observed: outs, Fresh: &f}
 				}
 				switch c.Op {
-				case "compile", "text", "resolve", "getinfo", "dump", "parse":
+				case "compile", "recompile", "text", "resolve", "getinfo", "dump", "parse":
 					if o.Out != f.Out {
-						report(mk(c.Op, fmt.Sprintf("call %d of the history (%s) gives %q; as the only call of a fresh process it gives %q", i+1, key(c), o.Out, f.Out)))
+						kind := c.Op
+						if kind == "recompile" {
+							kind = "compile"
+						}
+						report(mk(kind, fmt.Sprintf("call %d of the history (%s) gives %q; as the only call of a fresh process it gives %q", i+1, key(c), o.Out, f.Out)))
 					}
 				case "table":
 					if o.Out != f.Out {
@@ -441,8 +479,8 @@ func main() {
 					if c.NNP && len(o.Progs) > 0 && o.NNP != 1 {
 						report(mk("nnp", fmt.Sprintf("call %d of the history (%s): NoNewPrivs requested, the filter reached the kernel, the installing thread does not carry the bit", i+1, key(c))))
 					}
-					if !c.NNP && o.NNP != 0 {
-						report(mk("nnp", fmt.Sprintf("call %d of the history (%s): NoNewPrivs not requested, the thread carried no bit before the call and carries it now", i+1, key(c))))
+					if !c.NNP && o.NNP != o.NNP0 {
+						report(mk("nnp", fmt.Sprintf("call %d of the history (%s): NoNewPrivs not requested, the thread's bit was %d before the call and is %d now", i+1, key(c), o.NNP0, o.NNP)))
 					}
 				}
 			}
